@@ -159,7 +159,7 @@ class SuitObject(PrettyPrintHelperMixin):
         # Ensure that cbor2.loads() will not consume all the available memory
         SuitObject.validate_cbor(cbstr)
         try:
-            return cbor2.loads(cbstr)
+            obj = cbor2.loads(cbstr)
         except ImportError as err:
             # Can occur due to possible incompatibilities in packages between virtual environment and system scope
             # (seen on Windows, where cbor2 was installed globally and in virtual environment)
@@ -178,6 +178,30 @@ class SuitObject(PrettyPrintHelperMixin):
             #   d81e84ffffffff -> SystemError
             #   d8234129 -> re.error
             raise ValueError("Cannot deserialize data!")
+        SuitObject._reject_shared_values(obj)
+        return obj
+
+    @staticmethod
+    def _reject_shared_values(obj: Any) -> None:
+        """Reject CBOR value sharing (tags 28/29): SUIT does not use it and every reference is expanded on re-encoding."""
+        seen = set()
+        stack = [obj]
+        while stack:
+            item = stack.pop()
+            if isinstance(item, cbor2.CBORTag):
+                children = [item.value]
+            elif isinstance(item, dict) or hasattr(item, "items"):
+                children = [child for pair in item.items() for child in pair]
+            elif isinstance(item, (list, tuple, set, frozenset)):
+                children = list(item)
+            else:
+                continue
+            if len(children) == 0:
+                continue
+            if id(item) in seen:
+                raise ValueError("Shared CBOR values are not supported!")
+            seen.add(id(item))
+            stack.extend(children)
 
     @staticmethod
     def serialize_cbor(obj: Any) -> bytes:
